@@ -170,8 +170,12 @@ def api_audit(self, tier, wd):
 C01.extra_obligations = api_audit
 
 
+HUGE_ZST = [65537, 2**31 + 1, 3000000000, 2**32 - 5, 2**32 - 2]
+
+
 class C02(Plan):
     pid = "C02"
+    cfgs_quick = ("dev", "rel")
     corr = ("r-", "sz", "c")
     spec = ("r-", "c")
 
@@ -186,6 +190,22 @@ class C02(Plan):
                     for b in ("push_back", "push_front", "try_push_back", "try_push_front", "pop_back", "pop_front"):
                         c = g.new(N, st, default_vals(sz))
                         c.ops = [b + (" " + c.e() if "push" in b else ""), a + " " + c.e(), "new"]
+        # larger capacities (every layout class), other element types (size_of / needs_drop gated paths)
+        wide_cases(g, WIDE_E, "push", every=1)
+        for el in ("B", "NE", "NB", "S"):
+            g.one_step(Ns(tier, [0, 1, 2, 3, 4], [0, 1, 2, 3, 4, 5, 6, 7, 8]), [3], fam_push, elem=el)
+            wide_cases(g, [9, 13, 17, 33, 100], "push", elem=el, every=1)
+        # zero-sized elements at capacities beyond 2^31 with the front anywhere in the array: index arithmetic on
+        # values that do not fit 32 bits (in a debug build an overflow there is a panic)
+        for N in HUGE_ZST:
+            for st in sorted({0, 1, N // 2, N - 2**31 + 1 if N > 2**31 else 0, N - 2, N - 1, 2**32 - N if N < 2**32 else 0,
+                              2**32 - N + 1 if N < 2**32 else 1}):
+                if not 0 <= st < N:
+                    continue
+                for sz in (0, 1, 3):
+                    for op in ("push_back", "push_front", "try_push_back", "try_push_front"):
+                        c = g.new(N, st, [0] * sz, elem="Z", junk=0)
+                        c.ops = [op + " " + c.e(), "pop_back", "pop_front", "new"]
         return g.cases
 
 
@@ -220,6 +240,20 @@ class C04(Plan):
     pid = "C04"
     corr = ("r-", "sz", "c", "e")
     spec = ("r-", "c", "e")
+    cfgs_quick = ("dev", "eio")
+    cfgs_thorough = ("dev", "rel", "eio")
+
+    def gen_cfg(self, tier, seed, cfg):
+        """byte buffers through the I/O traits (all three families in the embedded-io build), over every junk pattern"""
+        if cfg != "eio":
+            return self.gen(tier, seed)
+        g = Gen(seed)
+        fams = ["std", "eio", "aio"]
+        g.one_step(Ns(tier, [0, 1, 2, 3, 4], [0, 1, 2, 3, 4, 5, 6]), JUNKS, fam_io(fams), elem="u8", suffix=())
+        io_histories(g, tier, 30 if tier == "quick" else 600, fams, [2, 3, 4, 5, 8, 16], 30)
+        for j in JUNKS:
+            wide_cases(g, WIDE_U8[::2], "io", elem="u8", junk=j, suffix=(), fams=tuple(fams), every=(6 if tier == "quick" else 1))
+        return g.cases
 
     def gen(self, tier, seed):
         g = Gen(seed)
@@ -265,6 +299,8 @@ class C04(Plan):
             if k1 in by_junk and by_junk[k1][1] != tr:
                 out.append((c, -1, "trace depends on the bytes in unoccupied slots (junk %d vs %d)" % (by_junk[k1][0].junk, c.junk)))
             by_junk.setdefault(k1, (c, tr))
+            if any(o.startswith("fill_buf") for o in c.ops):
+                continue        # fill_buf returns the first contiguous run: "apart from where as_slices splits"
             if k2 in by_rot and by_rot[k2][1] != tr2:
                 out.append((c, -1, "observable results depend on the internal layout (start %d vs %d)" % (by_rot[k2][0].start, c.start)))
             by_rot.setdefault(k2, (c, tr2))
